@@ -1504,7 +1504,17 @@ def c01_predispatch_positive(ctx):
                 zero = True
             if not zero:
                 continue
-            body_ok = any(isinstance(x, ast.Raise) for x in n.body) or any(isinstance(x, ast.Assign) and (set(stores_to(x)) & names) and lower_ok(x.value) for x in n.body)
+            # the clamp must reach the very expression handed to islice: it stores to it, or the (later) definition of that
+            # expression copies the clamped name
+            clamps = [x for x in n.body if isinstance(x, ast.Assign) and (set(stores_to(x)) & names) and lower_ok(x.value)]
+            def reaches_amount(x):
+                if amount in stores_to(x):
+                    return True
+                clamped = set(stores_to(x)) & names
+                later = [a for a in nodes_of_type(call, ast.Assign) if amount in stores_to(a) and dotted(a.value) in clamped and g.path_exists(g.nodes_of(x), g.nodes_of(a))
+                         and g.every_path_to(g.nodes_of(c), g.nodes_of(a))]
+                return bool(later)
+            body_ok = any(isinstance(x, ast.Raise) for x in n.body) or any(reaches_amount(x) for x in clamps)
             if body_ok and g.every_path_to(g.nodes_of(c), g.nodes_of(n)) and all(not g.path_exists(g.nodes_of(n), g.nodes_of(a)) for a in stores if a not in n.body and not any(a is y for x in n.body for y in ast.walk(x))):
                 guards.append(n)
         ctx.check(bool(guards), c, "an amount of 0 is replaced (or rejected) before the look-ahead slice is taken",
